@@ -603,6 +603,11 @@ open(path, "w").write(mod_a); out["module A present"] = attempt()
 os.remove(path); out["module removed"] = attempt()
 open(path, "w").write(mod_b); out["module B (no gate Foo) present"] = attempt()
 open(path, "w").write(mod_a); out["module A again"] = attempt()
+# the directory the module is looked up in is not there (any more), or is not a directory
+keep = d
+d = os.path.join(keep, "no-such-directory"); out["search directory missing"] = attempt()
+d = path; out["search path is a file"] = attempt()
+d = keep; out["module A after the missing directory"] = attempt()
 json.dump(out, sys.stdout)
 '''
 
@@ -627,6 +632,11 @@ def fs_history_probe(rec, d, text):
         rec.violation(sig("C16", "relative-pulse-import-of-existing-module-failed"), r, case)
     if r["module removed"][0] != "ImportError":
         rec.violation(sig("C16", "missing-pulse-module-not-reported:" + r["module removed"][0]), r, case)
+    for k in ("search directory missing", "search path is a file"):
+        if r[k][0] != "ImportError":
+            rec.violation(sig("C16", "missing-pulse-module-not-reported:%s:%s" % (r[k][0].replace("other:", ""), k.replace(" ", "-"))), r, case)
+    if r["module A after the missing directory"][0] != "ok":
+        rec.violation(sig("C16", "relative-pulse-import-of-existing-module-failed:after-a-missing-directory"), r, case)
     if r["module B (no gate Foo) present"][0] != "JaqalError":
         rec.violation(sig("C16", "replaced-pulse-module-not-reloaded:" + r["module B (no gate Foo) present"][0]), r, case)
 
